@@ -69,6 +69,22 @@ struct VbkBlock {
 extern const uint192 vstd_empty_hash192;
 bool DeserializeFromRaw(ReadStream& stream, VbkBlock& out, ValidationState& state, const VbkBlock::hash_t& precalculatedHash = vstd_empty_hash192);
 bool DeserializeFromVbkEncoding(ReadStream& stream, VbkBlock& out, ValidationState& state, const VbkBlock::hash_t& precalculatedHash = vstd_empty_hash192);
+struct Coin {   // entities/coin.hpp
+  int64_t units;
+  Coin() : units(0) {}
+  explicit Coin(int64_t u) : units(u) {}
+  void toVbkEncoding(WriteStream& stream) const;
+  size_t estimateSize() const;
+};
+struct PublicationData {   // entities/publication_data.hpp: the four data members
+  int64_t identifier;
+  std::vector<uint8_t> header;
+  std::vector<uint8_t> payoutInfo;
+  std::vector<uint8_t> contextInfo;
+  PublicationData() : identifier(0) {}
+  void toVbkEncoding(WriteStream& stream) const;
+  size_t estimateSize() const;
+};
 struct KeystoneContainer {   // entities/keystone_container.hpp: the two data members
   std::vector<uint8_t> firstPreviousKeystone;
   std::vector<uint8_t> secondPreviousKeystone;
@@ -83,6 +99,12 @@ struct KeystoneContainer {   // entities/keystone_container.hpp: the two data me
 #include "slices/btc_setters.inc"
 #include "slices/btc_DeserializeFromRaw.inc"
 #include "slices/btc_DeserializeFromVbkEncoding.inc"
+#include "slices/coin_toVbkEncoding.inc"
+#include "slices/coin_estimateSize.inc"
+#include "slices/coin_Deserialize.inc"
+#include "slices/pub_toVbkEncoding.inc"
+#include "slices/pub_estimateSize.inc"
+#include "slices/pub_Deserialize.inc"
 #include "slices/ksc_toVbkEncoding.inc"
 #include "slices/ksc_estimateSize.inc"
 #include "slices/vbk_toRaw.inc"
